@@ -228,6 +228,11 @@ func genC05(tier string, rng *Rng) {
 		runOp([]string{"resphdr", h2("C", "n", "v", k, k)})
 		runOp([]string{"trailerhdr", h2("T", k, "v")})
 		runOp([]string{"trailerhdr", h2("T", "X-K", k)})
+		for _, side := range []string{"q", "p"} {
+			runOp([]string{"trailerwire", side, h2("T", k, "v")})
+			runOp([]string{"trailerwire", side, h2("T", "X-K", k)})
+			runOp([]string{"trailerwire", side, h2("T", "X-A", "1"), h2("T", "X-K", k), h2("T", "X-B", k)})
+		}
 	}
 	names := []string{"X-A", "Content-Type", "Host", "Cookie", "Set-Cookie", "Connection", "Content-Length", "Transfer-Encoding", "Trailer", "Date", "Server", "User-Agent", "Location", "x-lower"}
 	for i := 0; i < nRand; i++ {
